@@ -89,6 +89,11 @@ def static_mech(src, opts, out):
                         return 'C01.inplace_rename.collides_with_kwargs'
             except Exception:
                 pass
+    if opts.get('remove_variable_annotations'):
+        # a yield inside the annotation of a local variable is never evaluated but makes the function a generator
+        for n in ast.walk(tree):
+            if isinstance(n, ast.AnnAssign) and any(isinstance(m, (ast.Yield, ast.YieldFrom, ast.Await)) for m in ast.walk(n.annotation)):
+                return 'C01.annotations.yield_in_removed_annotation'
     fb = class_fallback_names(tree)
     if fb and out:
         try:
